@@ -182,8 +182,8 @@ PROPS = {
         ],
         "units": [
             regress("C10"),
-            {"run": "^TestC10A$", "quick": 3000, "thorough": 20000},
-            {"run": "^TestC10B$", "quick": 3000, "thorough": 20000},
+            {"run": "^TestC10A$", "quick": 3000, "thorough": 8000},
+            {"run": "^TestC10B$", "quick": 3000, "thorough": 8000},
         ],
     },
     "C11": {
@@ -194,7 +194,7 @@ PROPS = {
         ],
         "units": [
             regress("C11"),
-            {"run": "^TestC11$", "quick": 1500, "thorough": 15000},
+            {"run": "^TestC11$", "quick": 1500, "thorough": 6000},
         ],
     },
     "C20": {
